@@ -32,6 +32,17 @@
 //!               before the seed is set, and created and mutated (not sampled) between the draws
 //!     <twin>  = `X` if `new(current parameters)` panics, otherwise `S <state> O <obs> D <draws>` of that
 //!               fresh object
+//!
+//! Bulk draws (reproducibility of `Distribution1D::sample_n` / `sample_matrix` from a fixed seed, at sizes where an
+//! implementation might switch strategy):
+//!
+//!   bulk <kind> <seed> <rows> <cols> <arg>*      cols = 0: `sample_n(rows)`; cols > 0: `sample_matrix(rows, cols)`
+//!
+//! Reply `= n <digest> <first 4 draws> <last 4 draws> <state> A <digest'> <state'> <digest''> <state''>`:
+//! `alea::set_seed(seed)`, the bulk call, then `alea::get_seed()`; `digest` = FNV-1a over the 64-bit patterns of
+//! the n draws (NaN canonical), printed as 16 hex digits.  The primed pair is the same bulk call run a second time
+//! from the same seed, the double-primed pair is `n` single `sample()` calls from the same seed.  The property
+//! demands that the three digests and the three final generator states coincide.  (`! panic` if `new` panics.)
 use compute::distributions::*;
 use cvexec::*;
 use std::panic::{catch_unwind, AssertUnwindSafe};
@@ -422,8 +433,52 @@ fn observe(d: &D, kind: &str, probes: &[A], seed: u64, salt: usize) -> R<String>
     Ok(s)
 }
 
+fn fnv(xs: &[f64]) -> u64 {
+    let mut h: u64 = 0xcbf29ce484222325;
+    for x in xs {
+        let b = if x.is_nan() { 0x7ff8000000000000 } else { x.to_bits() };
+        h = (h ^ b).wrapping_mul(0x100000001b3);
+    }
+    h
+}
+
+fn bulk_call(d: &D, rows: usize, cols: usize) -> Vec<f64> {
+    if cols == 0 {
+        each!(d, x => x.sample_n(rows).v)
+    } else {
+        each!(d, x => x.sample_matrix(rows, cols).data.v)
+    }
+}
+
 fn step(_: &mut (), t: &mut Toks) -> R<String> {
     match t.tok()? {
+        "bulk" => {
+            let kind = t.tok()?;
+            let sg = sig(kind)?.as_bytes();
+            let seed = t.u64()?;
+            let (rows, cols) = (t.usize()?, t.usize()?);
+            let mut args = Vec::new();
+            for ty in sg {
+                args.push(parse_arg(t, *ty)?);
+            }
+            t.end()?;
+            let d = construct(kind, &args)?;
+            let n = if cols == 0 { rows } else { rows * cols };
+            alea::set_seed(seed);
+            let a = bulk_call(&d, rows, cols);
+            let sa = alea::get_seed();
+            alea::set_seed(seed);
+            let b = bulk_call(&d, rows, cols);
+            let sb = alea::get_seed();
+            alea::set_seed(seed);
+            let c: Vec<f64> = (0..n).map(|_| sample(&d)).collect();
+            let sc = alea::get_seed();
+            let k = a.len().min(4);
+            Ok(ok(format!(
+                "{} {:016x} {} {} {} A {:016x} {} {:016x} {}",
+                a.len(), fnv(&a), show_fs(&a[..k]), show_fs(&a[a.len() - k..]), sa, fnv(&b), sb, fnv(&c), sc
+            )))
+        }
         "hist" => {
             let kind = t.tok()?;
             let sg = sig(kind)?.as_bytes();
